@@ -11,6 +11,7 @@ import (
 	"encoding/json"
 	"fmt"
 	"hash/fnv"
+	"os"
 	"sort"
 	"strconv"
 	"strings"
@@ -31,6 +32,8 @@ type childIn struct {
 	Skip     []string
 	Sync     bool // confirm mode: one event at a time, each logged before it is fed
 	Par      bool // parallel clause: every configuration also runs in a multi-processor pipeline
+	Hist     bool // history clause: random histories in front of the plugin under test
+	Sweep    bool // history clause: the systematic k x j x position sweep
 }
 
 type witness struct {
@@ -43,6 +46,7 @@ type witness struct {
 	Output    string     `json:"output"`
 	Expected  string     `json:"expected"`
 	What      string     `json:"what"`
+	History   any        `json:"history,omitempty"` // history clause: what happened to the event before it reached the plugin
 	Count     int64      `json:"occurrences_in_run,omitempty"`
 }
 
@@ -92,6 +96,12 @@ func child(raw json.RawMessage, io *core.ChildIO) (any, error) {
 	var in childIn
 	if err := json.Unmarshal(raw, &in); err != nil {
 		return nil, err
+	}
+	if msg := mirrorSelfCheck(); msg != "" {
+		return &childOut{HarnessErr: msg}, nil
+	}
+	if in.Hist || in.Sweep {
+		return childHist(in, io)
 	}
 	out := &childOut{Counters: map[string]int64{}, Viol: map[string]*witness{}, ViolCount: map[string]int64{}, Incon: map[string]int{}}
 	fps := map[string]struct{}{}
@@ -446,13 +456,15 @@ func run(c *core.Ctx) {
 		"and N events (depth<=6, 0-140 fields per object, arrays, scalars of every type and raw spelling, non-minimal key escapes, optional whitespace) of which ~70% have some of the paths planted " +
 		"(also through arrays/scalars, or with the leaf missing); all events of a configuration pass through ONE instance of each real plugin in a real single-processor pipeline. " +
 		"Parallel clause: further configurations (120-150 events, 35% with 17-86 top-level fields) run through a single-processor pipeline AND a pipeline with GOMAXPROCS*2=12 processors (one plugin instance each, same config pointer), fed by 4 goroutines over 12 source ids, processors released together once everything is queued; each parallel output must be byte-identical to the sequential one; probe actions around the plugin count overlapping Do calls. " +
+		"History clause: the event reaching the plugin is not freshly decoded. Random family: configurations of the same kind with 1-4 earlier steps in the same real pipeline (real remove_fields, keep_fields, rename, modify, set_time, add_host, json_decode, flatten, move, json_encode actions working on relatives of the configured paths, and a harness action applying a per-event script of 1-25 insane-json mutations - delete / add / re-type / rename / touch, top level and nested, bursts of k deletions inside one nested object plus deletions in its parent); a recording action right in front of the plugin under test encodes the event, and the output must equal the reference selection applied to THAT JSON. Sweep: fixed shape, counts walked exhaustively - k=0..4 deletions inside a nested object X x j=0..4 unwanted siblings in front of X x 0..2 kept siblings in front x kept/unwanted fields behind x p=0..2 earlier deletions in X's parent x X keeping 0..2 own fields x parent <=16 / >16 fields, for the parent at depth 0,1,2, five kinds of history (remove_fields, keep_fields, remove_fields twice, rename, direct mutations with/without a Dig of X) and four set-ups of the plugin under test (keep dropping X, keep keeping part of X, remove with X last / first). Twin oracle: the recorded JSON, freshly decoded, through the plugin alone must give the same tree (key order included) as the event with history. " +
 		"non-trivial = at least one selector addresses or crosses something (or keep_fields on a non-empty event); distinct = distinct (plugin, multiset of per-path outcome {depth, matched components, hit type/absent/crossing kind, dotted name, wide object}, result class, top-level size bucket)")
 	c.Assume("events are JSON objects with unique (decoded) keys and valid UTF-8; selector names are non-empty and have no backslash before a dot or at their end (not expressible with the documented escaping)")
+	c.Assume("history clause: insane-json's Encode of the event right before the plugin under test shows the event as that plugin sees it (events for which that JSON has duplicate keys or is not an object are outside the quantifier and not judged); the earlier actions themselves are not judged")
 	c.Assume("the pipeline itself (json decoder, fake input, devnull output, stream field absent) passes an event through unchanged apart from whitespace and key re-escaping; keys are compared decoded, values by raw bytes")
 
 	type job struct {
 		from, to, events, procs int
-		par                     bool
+		par, hist, sweep        bool
 	}
 	var jobs []job
 	split := func(configs, chunks, events, procs int, par bool) {
@@ -460,6 +472,16 @@ func run(c *core.Ctx) {
 		for from := 0; from < configs; from += per {
 			jobs = append(jobs, job{from: from, to: min(from+per, configs), events: events, procs: procs, par: par})
 		}
+	}
+	// history clause first (its sweep chunks are the longest single jobs): random histories, then the sweep
+	split(c.N(histQuick, histThorough), c.N(16, 96), c.N(32, 40), 4, false)
+	for i := range jobs {
+		jobs[i].hist = true
+	}
+	histJobs := len(jobs)
+	split(sweepConfigs, 12, 0, 4, false)
+	for i := histJobs; i < len(jobs); i++ {
+		jobs[i].sweep = true
 	}
 	// sequential clause: one processor, one plugin instance per configuration
 	split(c.N(6000, 40000), c.N(48, 320), c.N(25, 60), 4, false)
@@ -480,7 +502,7 @@ func run(c *core.Ctx) {
 		opt := core.ChildOpt{Timeout: 20 * time.Minute, GOMAXPROCS: j.procs}
 		var skip []string
 		for from < to {
-			in := childIn{Seed: c.Seed, Thorough: c.Thorough(), From: from, To: to, Events: events, Skip: skip, Par: j.par}
+			in := childIn{Seed: c.Seed, Thorough: c.Thorough(), From: from, To: to, Events: events, Skip: skip, Par: j.par, Hist: j.hist, Sweep: j.sweep}
 			res := core.RunChild("c18", in, opt)
 			if res.Completed {
 				var o childOut
@@ -504,14 +526,22 @@ func run(c *core.Ctx) {
 				c.Inconclusive("child crashed before any command")
 				return
 			}
-			cin := childIn{Seed: c.Seed, Thorough: c.Thorough(), From: last.Config, To: last.Config + 1, Events: events, Sync: !j.par, Par: j.par}
+			cin := childIn{Seed: c.Seed, Thorough: c.Thorough(), From: last.Config, To: last.Config + 1, Events: events, Sync: !j.par, Par: j.par, Hist: j.hist, Sweep: j.sweep}
 			for _, p := range append([]string{"ParseNestedFields"}, plugins...) {
 				if p != last.Plugin {
 					cin.Skip = append(cin.Skip, caseKey(last.Config, p))
 				}
 			}
 			conf := core.RunChild("c18", cin, opt)
-			if conf.Crashed() {
+			if conf.Crashed() && (j.hist || j.sweep) && !stackInCodeUnderTest(conf.Stderr) {
+				// an earlier action of the history (or insane-json under it) died; keep_fields / remove_fields
+				// are nowhere on the stack: not a matter of this property, the configuration is not judged
+				msg, site := core.PanicSite(conf.Stderr)
+				if i := strings.LastIndex(site, ":"); i > 0 {
+					site = site[:i]
+				}
+				c.Inconclusive("history clause: an action in front of the plugin under test crashed, configuration not judged (" + core.NormalizeMsg(msg) + "@" + site + ")")
+			} else if conf.Crashed() {
 				msg, site := core.PanicSite(conf.Stderr)
 				if i := strings.LastIndex(site, ":"); i > 0 {
 					site = site[:i] // drop the line number
@@ -526,8 +556,8 @@ func run(c *core.Ctx) {
 					msg = fmt.Sprintf("process exit code %d without panic message", conf.ExitCode)
 				}
 				results[ch].crashV = append(results[ch].crashV, crashViolation{
-					sig:  "plugin=" + last.Plugin + parTag(j.par) + " crash=" + core.NormalizeMsg(msg) + "@" + site,
-					what: "process died inside " + last.Plugin + ": " + msg,
+					sig:  "plugin=" + last.Plugin + parTag(j.par) + histTag(j.hist || j.sweep) + " crash=" + core.NormalizeMsg(msg) + "@" + site,
+					what: "process died inside " + last.Plugin + map[bool]string{true: " (or in an action in front of it; see the stack)"}[j.hist || j.sweep] + ": " + msg,
 					wit:  map[string]any{"config": last.Config, "plugin": last.Plugin, "last_command": conf.LastLog(), "stderr": core.Trunc(conf.Stderr, 3000)},
 					cfg:  last.Config,
 				})
@@ -537,7 +567,7 @@ func run(c *core.Ctx) {
 			// results of the configurations before the crash are lost: redo [from,last) cheaply is not
 			// possible without the crash, so resume from the crashed configuration with it skipped
 			if last.Config > from {
-				pre := core.RunChild("c18", childIn{Seed: c.Seed, Thorough: c.Thorough(), From: from, To: last.Config, Events: events, Skip: skip, Par: j.par}, opt)
+				pre := core.RunChild("c18", childIn{Seed: c.Seed, Thorough: c.Thorough(), From: from, To: last.Config, Events: events, Skip: skip, Par: j.par, Hist: j.hist, Sweep: j.sweep}, opt)
 				if pre.Completed {
 					var o childOut
 					if json.Unmarshal(pre.Out, &o) == nil {
@@ -552,6 +582,18 @@ func run(c *core.Ctx) {
 			if len(skip) > 10 {
 				c.Inconclusive("too many crashes in one chunk")
 				return
+			}
+		}
+	}
+	if only := os.Getenv("C18_ONLY"); only != "" { // development aid: time one clause alone (the evidence floors then fail => exit 2)
+		for i := range jobs {
+			j := &jobs[i]
+			kind := map[bool]string{true: "par"}[j.par] + map[bool]string{true: "hist"}[j.hist] + map[bool]string{true: "sweep"}[j.sweep]
+			if kind == "" {
+				kind = "seq"
+			}
+			if (only == "nohist") == (kind == "hist" || kind == "sweep") || (only != "nohist" && kind != only) {
+				j.to = j.from
 			}
 		}
 	}
@@ -638,11 +680,49 @@ func run(c *core.Ctx) {
 			c.Inconclusive("parallel clause: fewer than 1% of the events of " + p + " overlapped with another processor")
 		}
 	}
+	// history clause: every kind of history step, both plugins judged on events that really differ from
+	// what was fed, the twin oracle at work, and every (k, j) cell of the sweep
+	for _, k := range []string{"remove_fields", "keep_fields", "mutate", "rename", "modify", "set_time", "add_host", "json_decode", "flatten", "move", "json_encode"} {
+		need = append(need, "history.step."+k)
+	}
+	for _, h := range sweepHist {
+		need = append(need, "sweep.step.sweep:"+h)
+	}
+	for _, p := range plugins {
+		for _, cl := range []string{"history", "sweep"} {
+			for _, k := range []string{"cases", "equal_to_reference", "input.changed_by_history", "twin.same_as_fresh_decode", "result.partial", "result.emptied", "path.hit-object", "path.hit-scalar"} {
+				need = append(need, cl+"."+p+"."+k)
+			}
+		}
+		need = append(need, "history."+p+".path.hit-array", "history."+p+".path.absent-leaf", "history."+p+".path.cross-scalar", "history."+p+".result.unchanged")
+		for k := 0; k <= 4; k++ {
+			for j := 0; j <= 4; j++ {
+				need = append(need, fmt.Sprintf("sweep.%s.k%d_j%d", p, k, j))
+			}
+		}
+	}
 	for _, k := range need {
 		if m.counters[k] == 0 {
 			c.Fatal("behaviour class never observed: %s", k)
 		}
 	}
+}
+
+// stackInCodeUnderTest: some frame of the crashed goroutine dump belongs to the two plugins or to cfg.
+func stackInCodeUnderTest(stderr string) bool {
+	for _, pkg := range []string{"file.d/plugin/action/keep_fields.", "file.d/plugin/action/remove_fields.", "file.d/cfg."} {
+		if strings.Contains(stderr, pkg) {
+			return true
+		}
+	}
+	return false
+}
+
+func histTag(h bool) string {
+	if h {
+		return " after-history:"
+	}
+	return ""
 }
 
 func parTag(par bool) string {
